@@ -84,8 +84,17 @@ class Monitor:
             self.on_data(ev)
         elif k == "AS":
             self.on_async_set(ev)
+        elif k == "AG":
+            self.on_async_get(ev)
+        elif k == "AR":
+            self.on_async_result(ev)
         elif k == "F":
             self.finalized[ev[1]] += 1
+        elif k == "EV":
+            # an external event accepted by mosaik (set_event in real-time mode): a demand
+            _, sid, t, outcome = ev
+            if outcome == "ok" and isinstance(t, int) and 0 <= t < self.until:
+                self.D[sid].setdefault((t,) + zero(self.T.depth(sid) - 1), set()).add("ext")
 
     # ------------------------------------------------------------------------
     def on_begin(self, ev):
@@ -201,7 +210,7 @@ class Monitor:
         self.begun[sid] = tt
 
     def _excusable(self, step, sid, ptt, seen=()):
-        if step == "init":
+        if step in ("init", "ext"):
             return False
         if step[0] == sid and step[1] >= ptt:
             return True
@@ -308,11 +317,37 @@ class Monitor:
     def on_async_set(self, ev):
         _, sid, k, t, dst_full, attr, val = ev
         dst = dst_full.split(".")[0]
-        ok = any(c.get("async") and c["src"] == dst and c["dst"] == sid for c in self.T.conns)
+        ok = self._async_allowed(sid, dst)
+        self.last_async = getattr(self, "last_async", {})
+        self.last_async[sid] = ("set", ok, dst_full)
         if ok:
             self.async_pending[dst][(attr, f"{sid}.e")] = val
         else:
             self.async_pending["!refused"][(dst, attr, f"{sid}.e")] = val
+
+    def _async_allowed(self, requester, target):
+        return any(c.get("async") and c["src"] == target and c["dst"] == requester
+                   for c in self.T.conns)
+
+    def on_async_get(self, ev):
+        _, sid, k, t, src_full, attr = ev
+        self.last_async = getattr(self, "last_async", {})
+        self.last_async[sid] = ("get", self._async_allowed(sid, src_full.split(".")[0]), src_full)
+
+    def on_async_result(self, ev):
+        sid, k, op, res = ev[1], ev[2], ev[3], ev[4]
+        what = getattr(self, "last_async", {}).get(sid)
+        if what is None:
+            return
+        _, allowed, target = what
+        name = ev[5] if len(ev) > 5 and res != "ok" else res
+        if allowed and res != "ok":
+            self.add("C16", "allowed-request-failed",
+                     f"{sid} step {k}: {op}_data towards {target} failed with {name}", sim=sid)
+        if not allowed and (res == "ok" or "ScenarioError" not in str(name)):
+            self.add("C16", "unconnected-request-not-refused",
+                     f"{sid} step {k}: {op}_data towards {target} (no async_requests connection) "
+                     f"ended with {name} instead of ScenarioError", sim=sid)
 
     def check_async_inputs(self, sid, tt, gset):
         exp = dict(self.async_pending.get(sid, {}))
